@@ -16,8 +16,9 @@ Proved here
                             bond-percolation expectation), every `n ≥ 3`, every commutative ring
                             (`cycleGraph` and the combinatorics of the cycle: `Lemmas/CycleExact.lean`).
 
-Stated but NOT proved (kept visible as `Prop`s): `Q_eq_connCount_full`, `Qgen_eq_connCount_full`, `Q_eq_Qgen_full`,
-`clique_exact_full`.
+The statements `Q_eq_connCount_full`, `Qgen_eq_connCount_full`, `Q_eq_Qgen_full`, `clique_exact_full` are kept here as
+`Prop`s and PROVED in the continuation files `Properties/C16Counts.lean` (Harary–Palmer), `C16Clique.lean`, `C16Full.lean`
+and `C16Cayley.lean` (Cayley's formula and the unconditional corollaries).
 -/
 namespace Gcmpy.ClosedForms
 open Gcmpy Gcmpy.Graph Gcmpy.Automated
@@ -191,14 +192,13 @@ theorem Q_eq_connCount_small_all (n k : Nat) (h1 : 1 ≤ n) (h5 : n ≤ 5) : Q n
 theorem Q_eq_QQ_small (n k : Nat) (h1 : 1 ≤ n) (h5 : n ≤ 5) (hk : k ≤ n * (n - 1) / 2) : Q n k = (QQ n k : Int) := by
   rw [QQ_spec n k hk, Q_eq_connCount_small n h1 h5 k hk]
 
-/-- OPEN only through Cayley's formula: proved EQUIVALENT to `cayley_connCount` (`connCount n (n-1) = n^(n-2)`) in
-`Properties/C16Counts.lean` (`Q_eq_connCount_iff_cayley`) and proved outright for `n ≤ 12` (`Q_eq_connCount_le12`) -/
+/-- PROVED for every `n`, `k` in `Properties/C16Cayley.lean` (`Q_eq_connCount`): the Harary–Palmer recursion
+(`Qgen_eq_connCount`, `Properties/C16Counts.lean`) plus Cayley's formula for the brute-force counter (`cayley`) -/
 def Q_eq_connCount_full : Prop := ∀ n k, 1 ≤ n → Q n k = (connCount n k : Int)
 /-- PROVED for every `n`, `k` in `Properties/C16Counts.lean` (`Qgen_eq_connCount`, the Harary–Palmer classification of all
 graphs by the component of a fixed vertex, `Lemmas/HararyPalmer.lean`) -/
 def Qgen_eq_connCount_full : Prop := ∀ n k, 1 ≤ n → Qgen n k = (connCount n k : Int)
-/-- proved for `n ≤ 12` (`Q_eq_Qgen`, kernel table); for all `n` EQUIVALENT to `Q_eq_connCount_full`, hence to Cayley's
-formula (`Q_eq_connCount_iff_Q_eq_Qgen`, `Properties/C16Counts.lean`) -/
+/-- PROVED for every `n`, `k` in `Properties/C16Cayley.lean` (`Q_eq_Qgen_all`); `Q_eq_Qgen` is the kernel-table instance -/
 def Q_eq_Qgen_full : Prop := ∀ n k, 1 ≤ n → Q n k = Qgen n k
 
 /-! ## 4. the chordless-cycle equation -/
@@ -265,10 +265,8 @@ end algebra
 /- `cycleGraph n`, the cycle `0 - 1 - … - (n-1) - 0`, is defined in `Lemmas/CycleExact.lean`. -/
 
 /-- the clique closed form is the exact bond-percolation generating function of the clique (= the automated equation on
-`K_τ` rooted at 0, `Hs` = the `u` of the other vertices).  PROVED in `Properties/C16Clique.lean` / `C16Full.lean`:
-unconditionally for `τ ≤ 12` (`clique_exact_le12`), and for every `τ` from `Q_eq_connCount_full`
-(`clique_exact_of_counts`), i.e. from Cayley's formula alone (`clique_exact_of_cayley`); the unconditional identity with
-`connCount` in place of `Q` is `automated_clique`. -/
+`K_τ` rooted at 0, `Hs` = the `u` of the other vertices).  PROVED for every `τ` in `Properties/C16Cayley.lean` (`clique_exact`), from `automated_clique`
+(`Properties/C16Clique.lean`: the identity with `connCount` in place of `Q`) and `Q_eq_connCount`. -/
 def clique_exact_full : Prop :=
   ∀ (R : Type) [CommRing R] (tau : Nat) (φ : R) (u : Nat → R), 1 ≤ tau →
     cliqueEquation tau φ ((List.range (tau - 1)).map fun i => u (i + 1))
